@@ -498,6 +498,13 @@ def run_case(case, workdir=None, backend_factory=None, catch_ki=False, around_ru
     obs['final_rmap'] = rec.final_rmap
     obs['excs'] = rec.excs
     obs['final_store'] = sorted(t for t in range(case['n']) if lab.is_cached(built.canon[t]))
+    unloadable = []
+    for t in obs['final_store']:
+        try:
+            built.canon[t]._lt.cache.load_result_with_meta(lab._storage, built.canon[t])
+        except BaseException:   # noqa
+            unloadable.append(t)
+    obs['unloadable'] = unloadable
     # result_meta marks on every instance reachable from the requested objects through executed tasks
     finished_ok = {e[1] for e in rec.ev if e[0] == 'finish' and e[2] is not None}
     loaded = {e[1] for e in rec.ev if e[0] == 'submit' and e[2]}
